@@ -431,7 +431,7 @@ func (g *gen) setup() {
 		tid := fmt.Sprintf("e%d", g.nTxn)
 		g.emit("p begin " + tid)
 		for i := 0; i < 10; i++ {
-			acts := fmt.Sprintf("set:fn:%04x", uint16(i*3))
+			acts := fmt.Sprintf("set:fn:%04x", uint16(int16(i*3-12))) // negative and non-negative values
 			if i%2 == 0 {
 				acts += " set:fe:" + hexOf([]byte([]string{"red", "green"}[i/2%2]))
 			}
@@ -1216,6 +1216,14 @@ func (g *gen) readTxn() {
 	g.nTxn++
 	tid := fmt.Sprintf("q%d", g.nTxn)
 	g.emit("p begin " + tid)
+	if g.p.name == "C04" && g.r.Intn(3) == 0 {
+		// aggregates over a selection whose values are all negative / all positive (a running extreme that starts from
+		// the zero value shows here), in a transaction of its own
+		g.emit(fmt.Sprintf("p %s select int:fn:%s => %s:fn", tid, []string{"lt0", "gt0"}[g.r.Intn(2)], []string{"max", "min", "sum", "avg"}[g.r.Intn(4)]))
+		g.emit("p rollback " + tid)
+		g.feat("aggregate-one-sign")
+		return
+	}
 	k := 1 + g.r.Intn(3)
 	for i := 0; i < k; i++ {
 		g.selectLine(tid)
@@ -1274,7 +1282,27 @@ func (g *gen) dumpAll() {
 func (g *gen) snapshotCycle() {
 	g.syncLive(g.emit("p dump"))
 	g.emit("p statehash") // byte-exact tie of writeState (ids by rank)
-	g.emit("p snapshot s")
+	if g.r.Intn(3) == 0 && len(g.live) > 0 && len(g.cols) > 0 {
+		// a transaction commits while the snapshot is in progress (after the chunk states were written): it is in the
+		// recorded log of the file and Restore replays it — in every chunk, for every width and kind
+		g.nTxn++
+		tid := fmt.Sprintf("w%d", g.nTxn)
+		g.txnRes, g.txnSet = map[string]bool{}, map[string]bool{}
+		g.emit("p begin " + tid)
+		n := 1 + g.r.Intn(4)
+		for i := 0; i < n; i++ {
+			if off, ok := g.pickLive(); ok {
+				if a := g.actionsAt(off, 1+g.r.Intn(2)); a != "" {
+					g.emit(strings.TrimRight(fmt.Sprintf("p %s at %d %s", tid, off, a), " "))
+				}
+			}
+		}
+		g.emit("p snapshot s with " + tid)
+		g.syncLive(g.emit("p dump")) // what the restored collection must equal
+		g.feat("snapshot-with-commit-in-flight")
+	} else {
+		g.emit("p snapshot s")
+	}
 	caps := []int{0, 1, 64, 1024, 70000}
 	g.emit(fmt.Sprintf("new q cap=%d logger=none", caps[g.r.Intn(len(caps))]))
 	if g.keyCol != "" {
